@@ -108,6 +108,13 @@ def check(run: Run) -> None:
                         run.check(_static_kind(fa2, fi, e) != "scalar", "C18.R3", fi, stmt_of(c), f"ast.{f.attr}.{fld}[..] receives AST nodes", f"ast.{f.attr}(..{fld}=[..{ast.unparse(e)}..]): a python scalar in a list of expression nodes")
     run.floor("C18.R3", n_ctor, 8, "ast constructor calls in the simplifier")
 
+    # ---------------- R6: the argument stack is restored on every exit, including the permitted FuncADLIndexError
+    run.rule("C18.R6", "stack frames are pushed/popped by a context manager that pops on exceptional exits too (shared with C02.R3b)")
+    from ..report import Relabel
+    from .c02 import _check_call_stack
+
+    _check_call_stack(Relabel(run, "C18.R6"), ctx, m)
+
     # ---------------- R4: exception inventory
     n_raise = 0
     for fi in [f for f in m.funcs.values() if f.module.name == mod]:
